@@ -109,7 +109,54 @@ def w_d3(rec):
     return lost, f"x: A narrowed by `isinstance(x, B)` (A, B unrelated) gives {[str(y) for y in out]}; an instance of class C(A, B) satisfies the test and belongs to A, yet it is excluded"
 
 
-REPLAYERS = {"pyanalyze.stacked_scopes.Constraint.apply_to_value": r_c02, "C02.D2": w_d2, "C02.D3": w_d3}
+def w_d3b(rec):
+    from pyanalyze.value import TypedValue, is_overlapping
+    ctx = _ctx()
+    r = is_overlapping(TypedValue(A), TypedValue(B), ctx)
+    o = C()
+    return (not r and isinstance(o, A) and isinstance(o, B)), f"is_overlapping(A, B) = {r} for unrelated classes A, B, but an instance of class C(A, B) belongs to both"
+
+
+class NB:
+    pass
+
+
+class NBFalse(NB):
+    def __bool__(self):
+        return False
+
+
+def w_d4(rec):
+    from pyanalyze.boolability import get_boolability
+    from pyanalyze.value import TypedValue
+    b = get_boolability(TypedValue(NB))
+    o = NBFalse()
+    return (b.is_safely_true() and isinstance(o, NB) and not bool(o)), f"get_boolability(NB) = {b.name}: 'always true', but NBFalse (a subclass defining __bool__) has a false instance"
+
+
+def search_bool():
+    """verdicts on exact literals must be right"""
+    from pyanalyze.boolability import get_boolability
+    from pyanalyze.value import KnownValue
+    for o in [0, 1, "", "a", None, True, False, (), (1,), 0.0, 1.5, A(), Color.RED, b"", [], [1], {}, {1: 2}]:
+        b = get_boolability(KnownValue(o))
+        if b.is_safely_true() and not bool(o):
+            return f"get_boolability(Literal[{o!r}]) = {b.name} (safely true) but bool() is False"
+        if b.is_safely_false() and bool(o):
+            return f"get_boolability(Literal[{o!r}]) = {b.name} (safely false) but bool() is True"
+    return None
+
+
+def r_bool(rec):
+    msg = search_bool()
+    if msg:
+        return True, msg
+    return False, "truthiness verdicts are right for the literal universe"
+
+
+REPLAYERS = {"pyanalyze.stacked_scopes.Constraint.apply_to_value": r_c02, "C02.D2": w_d2, "C02.D3": w_d3, "C02.D4": w_d4, "C02.D3b": w_d3b,
+             "pyanalyze.boolability._get_type_boolability": r_bool, "pyanalyze.boolability.Boolability.is_safely_true": r_bool,
+             "pyanalyze.boolability.Boolability.is_safely_false": r_bool}
 
 if __name__ == "__main__":
     print(search()); print(search(False)); print(w_d2(None)); print(w_d3(None))
